@@ -66,28 +66,31 @@ def run_prop(ctx, pid):
     if rows is None:
         return
     # ---- implementation-side predicates --------------------------------
-    preds = {name: fn for name, fn in cc.PREDICATES}
+    # (corpus scripts run first; an expected-failure witness is judged only by
+    # corpus_expect: the real code must still fail exactly as recorded)
     nviol = 0
     pred_evals = 0
+    only = set(sp["predicates"]) | {"corpus_expect"}
     for row in rows:
-        for name in sp["predicates"]:
-            fn = preds.get(name)
-            if fn is None:
-                continue
-            pred_evals += 1
-            fails = fn(row)
-            if fails and nviol < 3:
-                nviol += 1
-                ctx.violation("impl_violates_predicate", "%s/%s" % (pid, name),
-                              {"case": row.get("case"), "chan_type": row.get("chan_type"),
-                               "fails": fails[:5],
-                               "script": {"chan_type": row.get("chan_type"),
-                                          "ops": [s["op"] for s in row["steps"]]}},
-                              signature="chan %s %s" % (name, fails[0][:120]))
+        pred_evals += len(only)
+        failed = cc.all_predicates(row, only=only)
+        for name, fails in failed.items():
+            if nviol >= 3:
+                break
+            nviol += 1
+            ctx.violation("impl_violates_predicate", "%s/%s" % (pid, name),
+                          {"case": row.get("case"), "chan_type": row.get("chan_type"),
+                           "corpus": row.get("corpus"), "fails": fails[:5],
+                           "script": {"chan_type": row.get("chan_type"),
+                                      "ops": [s["op"] for s in row["steps"]]}},
+                          signature="chan %s %s" % (name, fails[0][:120]))
     # ---- correspondence ---------------------------------------------------
     terms, used, reasons = [], 0, {}
     for row in rows:
-        t, n, why = cm.case_term(row, with_reload=sp["with_reload"], with_cut=sp["with_cut"])
+        is_corpus = bool(row.get("script"))
+        t, n, why = cm.case_term(row, with_reload=sp["with_reload"] or is_corpus,
+                                 with_cut=sp["with_cut"] or is_corpus,
+                                 expect_fail=cc.expected_failure(row))
         terms.append(t)
         used += n
         if why:
